@@ -323,6 +323,12 @@ def _frame_obligations(eng, con, o, old, s, line):
                     allowed.setdefault(nm, []).append(loc[2])
             elif loc[0] == "map":
                 allowed[loc[1]] = None
+            elif loc[0] == "dict-maps":
+                from .values import sort_key as _sk
+
+                k = f"{_sk(loc[1])}.{_sk(loc[2])}"
+                for nm in (f"DH.{k}", f"DV.{k}", f"DSZ.{k}"):
+                    allowed[nm] = None
             elif loc[0] == "fresh-objs":
                 pass  # only references allocated during the call: the default frame (r < alloc@0) applies
     for name, cur in s.heap.items():
